@@ -68,3 +68,37 @@ Example C01_example :
   let d2 := [([97]%N, VInt64 (- 2 ^ 63)); ([98]%N, VDoc [([99]%N, VArr [VBool false; VString [121]%N; VDouble 0])])] in
   inputs_ok [d1; d2] [0; 0] /\ Forall (fun d => doc_has_ts_seconds d = false) [d1; d2].
 Proof. exact codec_example. Qed.
+
+(* ---- oracle = theorem: the executable oracle c01_ok of Model/Instance.v, which the
+   driver ocaml/read_run.ml applies (together with "reader error = none") to what the
+   implementation's structured reader returned for the accepted inputs, accepts the
+   model's own read-back of the model's own emission, for every zlib in the sense of the
+   section above and every input satisfying the hypotheses of C01_roundtrip (proofs in
+   Proofs/OracleSoundC01.v) ---- *)
+From FV.Model Require Import CollectorOk Instance.
+From FV.Proofs Require OracleSoundC01.
+
+Theorem C01_oracle_sound : forall (deflate : bytes -> bytes) (inflate : bytes -> option bytes),
+  (forall p, inflate (deflate p) = Some p) ->
+  forall k n docs nows,
+  compressing k = true -> 1 <= n < 2 ^ 31 -> inputs_ok docs nows -> fits k n docs ->
+  Forall (fun d => doc_has_ts_seconds d = false) docs ->
+  exists decoded,
+    read_structured inflate (emitted (snd (fst (emit deflate k n docs nows)))) = (Some decoded, None) /\
+    c01_ok docs decoded = true.
+Proof. exact OracleSoundC01.c01_oracle_sound. Qed.
+Print Assumptions C01_oracle_sound.
+
+(* the trivial codec with which the oracle runs in extraction is such a zlib *)
+Theorem C01_flag_codec : forall p, inflate_flag (deflate_flag p) = Some p.
+Proof. exact OracleSoundC01.inflate_deflate_flag. Qed.
+Print Assumptions C01_flag_codec.
+
+Theorem C01_oracle_sound_flag : forall k n docs nows,
+  compressing k = true -> 1 <= n < 2 ^ 31 -> inputs_ok docs nows -> fits k n docs ->
+  Forall (fun d => doc_has_ts_seconds d = false) docs ->
+  exists decoded,
+    read_structured inflate_flag (emitted (snd (fst (emit deflate_flag k n docs nows)))) = (Some decoded, None) /\
+    c01_ok docs decoded = true.
+Proof. exact OracleSoundC01.c01_oracle_sound_flag. Qed.
+Print Assumptions C01_oracle_sound_flag.
